@@ -107,7 +107,8 @@ package transaction
 //@   requires c != nil && c.am != nil && voterAccount != nil && newCandidateAccount != nil && modifyVotes != nil
 //@   let ex = val(modifyVotes); oldAddr = voterAccount.GetVoteFor(); oldc = c.am.GetAccount(oldAddr)
 //@   let moved = ex > 0 && oldAddr != common.Address{} && types.isCand(oldc)
-//@   modifies gh("votes", newCandidateAccount), gh("votes", oldc)
+//@   requires types.ownsVotes(oldc) && types.ownsVotes(newCandidateAccount)
+//@   modifies gh("votesPtr", newCandidateAccount), gh("votesPtr", oldc)
 //@   ensures ex <= 0 ==> types.votesOf(newCandidateAccount) == old(types.votesOf(newCandidateAccount)) && types.votesOf(oldc) == old(types.votesOf(oldc))
 //@   ensures ex > 0 && (!moved || oldc != newCandidateAccount) ==> types.votesOf(newCandidateAccount) == old(types.votesOf(newCandidateAccount)) + ex
 //@   ensures moved && oldc != newCandidateAccount ==> types.votesOf(oldc) == old(types.votesOf(oldc)) - ex
@@ -122,7 +123,8 @@ package transaction
 //@   requires c != nil && c.am != nil && initialBalance != nil && val(initialBalance) >= 0 && params.VoteExchangeRate != nil && val(params.VoteExchangeRate) > 0
 //@   let newc = c.am.GetAccount(newCandidateAddr); v = c.am.GetAccount(voter); ex = val(initialBalance) / val(params.VoteExchangeRate)
 //@   let oldAddr = v.GetVoteFor(); oldc = c.am.GetAccount(oldAddr)
-//@   modifies gh("votes", newc), gh("votes", oldc), gh("voteFor", v)
+//@   requires types.ownsVotes(oldc) && types.ownsVotes(newc)
+//@   modifies gh("votesPtr", newc), gh("votesPtr", oldc), gh("voteFor", v)
 //@   ensures result == nil ==> types.isCand(newc) && oldAddr != newCandidateAddr && types.voteForKey(v) == types.akey(newCandidateAddr)
 //@   ensures result == nil && ex > 0 ==> types.votesOf(newc) == old(types.votesOf(newc)) + ex
 //@   ensures result == nil && ex > 0 && oldAddr != common.Address{} && types.isCand(oldc) ==> types.votesOf(oldc) == old(types.votesOf(oldc)) - ex
@@ -136,7 +138,8 @@ package transaction
 //@   props C11
 //@   requires am != nil && changeVotes != nil
 //@   let acc = am.GetAccount(accountAddress); candAddr = acc.GetVoteFor(); cand = am.GetAccount(candAddr)
-//@   modifies gh("votes", cand)
+//@   requires types.ownsVotes(cand)
+//@   modifies gh("votesPtr", cand)
 //@   ensures candAddr != common.Address{} && types.isCand(cand) ==> types.votesOf(cand) == old(types.votesOf(cand)) + val(changeVotes)
 //@   ensures candAddr == common.Address{} || !types.isCand(cand) ==> types.votesOf(cand) == old(types.votesOf(cand))
 //@   nopanic
@@ -146,7 +149,8 @@ package transaction
 //@   props C11
 //@   requires oldDeposit != nil && newDeposit != nil && senderAcc != nil && params.DepositExchangeRate != nil && val(params.DepositExchangeRate) > 0 && val(oldDeposit) >= 0 && val(newDeposit) >= 0
 //@   let d = val(newDeposit) / val(params.DepositExchangeRate) - val(oldDeposit) / val(params.DepositExchangeRate)
-//@   modifies gh("votes", senderAcc)
+//@   requires types.ownsVotes(senderAcc)
+//@   modifies gh("votesPtr", senderAcc)
 //@   ensures d > 0 ==> types.votesOf(senderAcc) == old(types.votesOf(senderAcc)) + d
 //@   ensures d <= 0 ==> types.votesOf(senderAcc) == old(types.votesOf(senderAcc))
 //@   nopanic
@@ -158,7 +162,7 @@ package transaction
 // unregistering clears the registration flag and zeroes the tally
 //@ func (*CandidateVoteEnv).unRegisterCandidate
 //@   props C11
-//@   requires c != nil && c.am != nil && candidateAcc != nil
-//@   modifies gh("votes", candidateAcc), gh("isCand", candidateAcc), ghall("balance")
+//@   requires c != nil && c.am != nil && candidateAcc != nil && types.ownsVotes(candidateAcc)
+//@   modifies gh("votesPtr", candidateAcc), gh("isCand", candidateAcc), ghall("balance")
 //@   ensures result ==> !types.isCand(candidateAcc) && types.votesOf(candidateAcc) == 0
 //@   ensures !result ==> types.isCand(candidateAcc) == old(types.isCand(candidateAcc)) && types.votesOf(candidateAcc) == old(types.votesOf(candidateAcc))
